@@ -57,6 +57,9 @@ Clause(c) ==
 Extra(c) ==
   LET p == IF c.steps = 1 THEN c.si ELSE StableArgSort(c.z) IN
   IF c.steps = 1 /\ ~IsSortingPerm(c.si, c.z) /\ ~("strip" \in CODEVARIANT) THEN "drift_sorted_indices"
+  \* without the recorded argsort result the shifted slices of a raster with -inf zones depend on numpy's
+  \* (unspecified) order among equal zones: no model to compare with
+  ELSE IF c.steps = 0 /\ ~("strip" \in CODEVARIANT) /\ \E k \in DOMAIN c.z : c.z[k] = NINF THEN "nomodel"
   ELSE IF ~IsSortingPerm(p, c.z) THEN "nomodel"
   ELSE
   LET a == CrosstabAlg(c.dim, c.z, c.vs, c.cats, p, c.nd, ZReq(c), CReq(c), c.agg, CODEVARIANT, "none")
